@@ -1194,11 +1194,18 @@ WRONG = {'status_keeps_draft': 'HandlerRaisedErrorIsRendered', 'render_drops_bod
 
 
 def wrong_designs(ctx, env, names):
-    """Vacuity control: each deliberately wrong design must violate its invariant in the model."""
-    for w in names:
+    """Vacuity control: each deliberately wrong design must violate its invariant in the model.  The tiny TLC
+    runs are independent and started side by side (start-up time dominates them)."""
+    from concurrent.futures import ThreadPoolExecutor
+
+    def one(w):
         e = dict(env)
         e['WRONG'] = w
-        r = ctx.tlc('MC_Pipeline', 'MC_PipelineW.cfg', env=e, workers=2, timeout=300, must_hold=False, count=False)
+        return ctx.tlc('MC_Pipeline', 'MC_PipelineW.cfg', env=e, workers=1, timeout=300, must_hold=False, count=False)
+
+    with ThreadPoolExecutor(max_workers=len(names)) as ex:
+        results = list(ex.map(one, names))
+    for w, r in zip(names, results):
         if r.violated != WRONG[w]:
             raise MachineryError('wrong design %s: expected invariant %s to fail, TLC reported %r' % (w, WRONG[w], r.violated))
     ctx.extra.setdefault('wrong_designs_rejected', []).extend(names)
